@@ -121,3 +121,44 @@ Fixpoint bisect_go {A : Type} (fuel : nat) (key : A -> Z) (l : list A) (v : Z) (
   end.
 Definition bisect_right {A : Type} (key : A -> Z) (l : list A) (v : Z) : Z :=
   bisect_go (S (length l)) key l v 0 (Z.of_nat (length l)).
+
+(* an Optional[Interval] used as an Interval after the source tested it against None *)
+Definition oivld (o : option ivl) : ivl := match o with Some i => i | None => mkI None None Plain end.
+
+(* a `while` nested in the body of a generator's `for`: what it yielded and the final values of
+   its variables; None = out of fuel.  The body says whether to go on (false = `break`). *)
+Fixpoint sub_while {S B : Type} (fuel : nat) (cond : S -> bool) (body : S -> list B * S * bool) (s : S)
+  : option (list B * S) :=
+  if cond s then
+    match fuel with
+    | O => None
+    | Datatypes.S f =>
+      let '(out, s', go) := body s in
+      if go then
+        match sub_while f cond body s' with
+        | Some (l, s'') => Some (out ++ l, s'')
+        | None => None
+        end
+      else Some (out, s')
+    end
+  else Some ([], s).
+
+(* a generator's `for` whose body contains such loops: the body may run out of fuel (None) *)
+Fixpoint run_for_o {S A B : Type} (body : S -> A -> option (list B * S * ctl)) (post : S -> list B)
+         (s : S) (xs : list A) : res (list B) :=
+  match xs with
+  | [] => RDone (post s)
+  | x :: r =>
+    match body s x with
+    | None => RFuel
+    | Some (out, s', c) =>
+      match c with
+      | Cont => match run_for_o body post s' r with
+                | RDone l => RDone (out ++ l)
+                | e => e
+                end
+      | Brk => RDone (out ++ post s')
+      | Ret => RDone out
+      end
+    end
+  end.
